@@ -27,7 +27,7 @@ def s_ref(draw):
     return {
         "lat": draw(cg.latitudes()), "lon": draw(cg.longitudes()), "par": draw(st.integers(0, 1)), "surface": surface, "tc": tc,
         "f": draw(FRAC), "g": draw(FRAC), "f2": draw(FRAC), "g2": draw(FRAC),
-        "ctx_bits": draw(gen.ubits(15)), "ctx_icao": draw(gen.addresses), "df": draw(st.sampled_from([17, 17, 18])),
+        "ctx_bits": draw(gen.ubits(15)), "ctx_icao": draw(gen.addresses), "df": draw(st.sampled_from([17, 17, 18])), "hc": draw(gen.hexcase),
     }
 
 
@@ -48,7 +48,7 @@ def chk_ref(case, note):
         me = cpr.me_surface(case["tc"], i, e["yz"], e["xz"], b & 127, (b >> 7) & 1, (b >> 8) & 127 & 127, 0)
     else:
         me = cpr.me_airborne(case["tc"], i, e["yz"], e["xz"], b & 4095, (b >> 12) & 3, (b >> 14) & 1, 0)
-    msg = frames.tohex(frames.df17(case["ctx_icao"], me, ca=b & 7, df=case["df"]), 112)
+    msg = frames.tohex(frames.df17(case["ctx_icao"], me, ca=b & 7, df=case["df"]), 112, case.get("hc", "U"))
     if cpr.near_transition(e["rlat"], 1e-9):
         note.cls("ambiguous-transition")
         return None
